@@ -23,15 +23,44 @@ static char* phrase_of(const pv_mlang* L, const unsigned d[16]) {
     char raw[2048]; pv_m_join_space(L, d, raw, sizeof raw);
     return pv_exact_str(raw);
 }
-/* status of decode_explicit; seeds are released */
-static int status_of(const pv_mlang* L, const unsigned d[16], unsigned coin) {
-    char* in = phrase_of(L, d); polyseed_data* s = NULL;
+/* a permitted other spelling of word x (C08): redundant combining accents in Spanish/French (1-8 marks after some letter),
+ * a 4+-letter abbreviation in the abbreviating languages; the word it stands for is still x */
+static char* respell(const pv_mlang* L, unsigned x, pv_rng* rng) {
+    uint32_t cp[64], out[96]; int n = L->ncp[x], m = 0;
+    if (n > 60) return pv_exact_str(L->word[x]);
+    memcpy(cp, L->cp[x], (size_t)n * sizeof *cp);
+    if (L->accents && pv_randn(rng, 3)) {
+        int after = (int)pv_randn(rng, (uint32_t)n), k = 1 + (int)pv_randn(rng, 8);
+        for (int i = 0; i < n; ++i) { out[m++] = cp[i]; if (i == after && !pv_is_accent(cp[i])) for (int j = 0; j < k; ++j) out[m++] = 0x300 + pv_randn(rng, 4); }
+    } else if (L->prefix) {
+        int letters = 0, keep = 4 + (int)pv_randn(rng, 3);
+        for (int i = 0; i < n; ++i) { bool acc = L->accents && pv_is_accent(cp[i]); if (!acc) { if (letters == keep) break; ++letters; } out[m++] = cp[i]; }
+    } else { memcpy(out, cp, (size_t)n * sizeof *cp); m = n; }
+    char* t = pv_xmalloc((size_t)m * 4 + 1); int k2 = 0;
+    for (int i = 0; i < m; ++i) k2 += pv_utf8_encode(out[i], t + k2);
+    t[k2] = 0; return t;
+}
+/* status of decode_explicit; seeds are released.  arm: the allocator refuses its next request (a corrupted phrase must be
+ * reported as such whatever the allocator does).  respell_pos >= 0: that word is typed in another permitted spelling. */
+static pv_rng* g_rng;
+static int status_of_x(const pv_mlang* L, const unsigned d[16], unsigned coin, bool arm, int respell_pos) {
+    char* in;
+    if (respell_pos >= 0 && g_rng) {
+        char buf[4096]; size_t k = 0;
+        for (int i = 0; i < 16; ++i) { char* w = i == respell_pos ? respell(L, d[i], g_rng) : pv_exact_str(L->word[d[i]]); size_t l = strlen(w); memcpy(buf + k, w, l); k += l; free(w); if (i < 15) buf[k++] = ' '; }
+        buf[k] = 0; in = pv_exact_str(buf); PV_COUNT("phrases.with_a_respelled_word", 1);
+    } else in = phrase_of(L, d);
+    polyseed_data* s = NULL;
+    if (arm) { pv_w->fail_countdown = 1; PV_COUNT("decodes.with_failing_allocator", 1); }
     int st = pv_api_decode_explicit(in, coin, L->lib, &s);
-    if (st == POLYSEED_OK) pv_api_free(s);
+    pv_w->fail_countdown = 0;
+    if (st == POLYSEED_OK) { if (!s) pv_violation("C02/ok-without-seed", "%s: decode_explicit returned OK but wrote no seed%s", L->name_en, arm ? " (allocator refusing its next request)" : ""); else pv_api_free(s); }
     free(in);
     PV_COUNT("evaluations", 1);
     return st;
 }
+static int status_of(const pv_mlang* L, const unsigned d[16], unsigned coin) { return status_of_x(L, d, coin, false, -1); }
+static unsigned g_tick;
 static bool validates(int st) { return st == POLYSEED_OK || st == POLYSEED_ERR_UNSUPPORTED; }
 
 /* ---------------------------------------------------------------- (a) arithmetic core */
@@ -49,7 +78,7 @@ static void run_arith(uint64_t idx, pv_rng* rng) {
         unsigned x = pv.tier ? (w + 1 + k) & 2047 : (w ^ (1u << (k % 11)) ^ (k >= 11 ? 1 + pv_randn(rng, 2046) : 0)) & 2047;
         if (x == w) continue;
         c[0] = x;
-        st = status_of(EN, c, 0);
+        st = status_of_x(EN, c, 0, (++g_tick & 3) == 0, -1);
         if (st != POLYSEED_ERR_CHECKSUM) pv_violation("C02/wrong-check-word-accepted", "coefficient %u at position %d: wrong check word %u (right one %u) -> %s", v, pos, x, w, pv_status_name(st));
         else PV_COUNT("arith.wrong_rejected", 1);
     }
@@ -60,6 +89,7 @@ static void run_arith(uint64_t idx, pv_rng* rng) {
 /* ---------------------------------------------------------------- (b) substitutions and swaps on valid phrases */
 static uint64_t n_subst(void) { return (uint64_t)pv_nlangs * pv_scaled(4, 50); }
 static void run_subst(uint64_t idx, pv_rng* rng) {
+    g_rng = rng;
     pv_mlang* L = &pv_langs[idx % (uint64_t)pv_nlangs];
     if (!L->lib) return;
     pv_mseed m; pv_gen_mseed(rng, 7, true, &m);
@@ -73,8 +103,10 @@ static void run_subst(uint64_t idx, pv_rng* rng) {
         for (unsigned x = (unsigned)pv_randn(rng, step); x < 2048; x += step) {
             if (x == orig) continue;
             d[p] = x;
-            st = status_of(L, d, coin);
-            if (st != POLYSEED_ERR_CHECKSUM) pv_violation("C02/substitution-not-detected", "%s: word %d replaced (%u -> %u) -> %s; seed %s coin %u", L->name_en, p + 1, orig, x, pv_status_name(st), pv_mseed_str(&m), coin);
+            ++g_tick;
+            bool resp = (g_tick % 8) == 5 && (L->accents || L->prefix);
+            st = status_of_x(L, d, coin, (g_tick & 3) == 0, resp ? p : -1);
+            if (st != POLYSEED_ERR_CHECKSUM) pv_violation(resp ? "C02/substitution-not-detected(respelled)" : "C02/substitution-not-detected", "%s: word %d replaced (%u -> %u%s) -> %s; seed %s coin %u", L->name_en, p + 1, orig, x, resp ? ", typed in another permitted spelling" : "", pv_status_name(st), pv_mseed_str(&m), coin);
             else PV_COUNT("subst.detected", 1);
         }
         d[p] = orig;
@@ -82,7 +114,7 @@ static void run_subst(uint64_t idx, pv_rng* rng) {
     for (int a = 0; a < 16; ++a) for (int b = a + 1; b < 16; ++b) {
         if (d[a] == d[b]) { PV_COUNT("swap.equal_words_skipped", 1); continue; }
         unsigned t = d[a]; d[a] = d[b]; d[b] = t;
-        st = status_of(L, d, coin);
+        st = status_of_x(L, d, coin, (++g_tick & 3) == 0, -1);
         if (st != POLYSEED_ERR_CHECKSUM) pv_violation("C02/swap-not-detected", "%s: words %d and %d exchanged -> %s; seed %s coin %u", L->name_en, a + 1, b + 1, pv_status_name(st), pv_mseed_str(&m), coin);
         else PV_COUNT("swap.detected", 1);
         t = d[a]; d[a] = d[b]; d[b] = t;
